@@ -228,6 +228,7 @@ type c01Pipe struct {
 	stageCalls    []*ssa.Call       // calls on the chain from the reply to the sent text
 	phis          map[*ssa.Phi]bool // merges on that chain
 	sends         []*ssa.Send       // sends on the updates channel
+	feeds         []*ssa.Send       // sends on hand-over channels inside the watcher through which a snapshot reaches the sent text
 	ctl           []ssa.Value       // conditions that decide whether a send happens
 	active        map[c01ProvKey]bool
 }
@@ -423,6 +424,9 @@ func (p *c01Pipe) prov(v ssa.Value, fr *c01Frame, depth int) c01Prov {
 	case *ssa.Index:
 		return p.prov(x.X, fr, depth+1)
 	case *ssa.UnOp:
+		if x.Op == token.ARROW {
+			return p.provRecv(x.X, depth, p.prov)
+		}
 		if x.Op != token.MUL {
 			break
 		}
@@ -443,6 +447,9 @@ func (p *c01Pipe) prov(v ssa.Value, fr *c01Frame, depth int) c01Prov {
 	case *ssa.Extract:
 		if call, ok := x.Tuple.(*ssa.Call); ok {
 			return p.provCall(call, x.Index, fr, depth)
+		}
+		if rc, ok := x.Tuple.(*ssa.UnOp); ok && rc.Op == token.ARROW && x.Index == 0 {
+			return p.provRecv(rc.X, depth, p.prov)
 		}
 	case *ssa.Call:
 		return p.provCall(x, 0, fr, depth)
@@ -604,6 +611,36 @@ func (p *c01Pipe) provCall(call *ssa.Call, idx int, fr *c01Frame, depth int) c01
 	return out
 }
 
+// provRecv (round 4): a value received from a channel of the watcher's own making (a hand-over between the loop and a
+// goroutine of the watcher: `work <- passing` ... `for p := range work`) is what the watcher's region sends on it; the
+// sends are remembered so that W2 asks of them what it asks of the send on the updates channel.
+func (p *c01Pipe) provRecv(ch ssa.Value, depth int, rec func(ssa.Value, *c01Frame, int) c01Prov) c01Prov {
+	if c01LeavesWatcher(p.c, ch) {
+		return c01Bad("a text received from a channel that is not a hand-over inside the watcher")
+	}
+	out := c01Neutral()
+	n := 0
+	eachInstrOf(p.reg, func(_ *ssa.Function, i ssa.Instruction) {
+		snd, ok := i.(*ssa.Send)
+		if !ok || !c01SameChan(ch, snd.Chan) {
+			return
+		}
+		n++
+		known := false
+		for _, f := range p.feeds {
+			known = known || f == snd
+		}
+		if !known {
+			p.feeds = append(p.feeds, snd)
+		}
+		out = c01MeetProv(out, rec(snd.X, nil, depth+1))
+	})
+	if n == 0 {
+		return c01Bad("a value received from a channel on which the watcher does not send")
+	}
+	return out
+}
+
 // prefilter: the filter roles applied inside a builder to its parameter before anything else looks at it: the only
 // use of the value is as the argument of a filter stage, whose result is used in the same way or freely.
 func (p *c01Pipe) prefilter(v ssa.Value, depth int) int {
@@ -689,6 +726,9 @@ func (p *c01Pipe) textProv(v ssa.Value, fr *c01Frame, depth int) c01Prov {
 		if call, ok := x.Tuple.(*ssa.Call); ok {
 			return p.textCall(call, x.Index, fr, depth)
 		}
+		if rc, ok := x.Tuple.(*ssa.UnOp); ok && rc.Op == token.ARROW && x.Index == 0 {
+			return p.provRecv(rc.X, depth, p.textProv)
+		}
 	case *ssa.Call:
 		return p.textCall(x, 0, fr, depth)
 	case *ssa.Parameter:
@@ -696,6 +736,9 @@ func (p *c01Pipe) textProv(v ssa.Value, fr *c01Frame, depth int) c01Prov {
 	case *ssa.FreeVar:
 		return p.viaFreeVar(x, depth, false, p.textProv)
 	case *ssa.UnOp:
+		if x.Op == token.ARROW {
+			return p.provRecv(x.X, depth, p.textProv)
+		}
 		if x.Op == token.MUL {
 			switch a := x.X.(type) {
 			case *ssa.Alloc:
@@ -932,6 +975,18 @@ func c01IsErrTest(v ssa.Value) bool {
 	return typeStr(other.Type()) == "error"
 }
 
+// c01IsRecvOK: the condition is the ok of a channel receive (`for x := range ch`, `x, ok := <-ch`): the loop of a
+// goroutine that is fed through a channel ends when the channel is closed - not a verdict on a snapshot.
+func c01IsRecvOK(v ssa.Value) bool {
+	v, _ = c01StripNot(v, true)
+	ex, ok := v.(*ssa.Extract)
+	if !ok || ex.Index != 1 {
+		return false
+	}
+	rc, ok := ex.Tuple.(*ssa.UnOp)
+	return ok && rc.Op == token.ARROW && rc.CommaOk
+}
+
 func (p *c01Pipe) runW2() {
 	c := p.c
 	loops := p.snapshotLoops()
@@ -945,7 +1000,7 @@ func (p *c01Pipe) runW2() {
 		return best
 	}
 	// the conditions that decide whether a send happens, up to the loop that issues the query
-	for _, snd := range p.sends {
+	for _, snd := range append(append([]*ssa.Send{}, p.sends...), p.feeds...) {
 		var s ssa.Instruction = snd
 		for hop := 0; hop < 4; hop++ {
 			f := s.Parent()
@@ -956,7 +1011,7 @@ func (p *c01Pipe) runW2() {
 				if !pos.IsValid() {
 					pos = iff.Cond.Pos()
 				}
-				c.check("C01.W2", fnKey(p.watch)+"|every successful reply is published", pos, c01IsErrTest(iff.Cond) || c01ErrVerdict(iff, s, l),
+				c.check("C01.W2", fnKey(p.watch)+"|every successful reply is published", pos, c01IsErrTest(iff.Cond) || c01ErrVerdict(iff, s, l) || c01IsRecvOK(iff.Cond),
 					"whether the configuration of a snapshot is sent may depend only on the error of the query; a condition on anything else (an earlier snapshot, the index, the instance set) lets the table miss a change of the registry - the route commands depend on the catalog entries too, not only on what the condition looks at")
 			}
 			if l != nil {
